@@ -542,6 +542,26 @@ pub fn iterglue(rng: &mut Rng, n: usize, sink: &mut Sink) {
             let mut keep = vec![];
             let shapes = representations(tgt, &mut keep);
             for (shape, base) in shapes {
+                // the target's own clones as items (they share its buffer when it is on the heap)
+                {
+                    evals += 2;
+                    let mut ls = base.clone();
+                    ls.extend([base.clone(), base.clone()]);
+                    let c: LeanString = [base.clone(), ls.clone(), base.clone()].into_iter().collect();
+                    if ls.as_str() != tgt.repeat(3) || c.as_str() != tgt.repeat(5) || base.as_str() != tgt {
+                        sink.fail(&["C01", "C02"], format!("extend / collect of a {shape} value's own clones: {:?} / {:?} (the value itself: {:?})", ls.as_str(), c.as_str(), base.as_str()));
+                    }
+                    let mut other = String::from("s:");
+                    other.extend([base.clone(), ls.clone()]);
+                    if other != format!("s:{}", tgt.repeat(4)) {
+                        sink.fail(&["C01"], format!("String::extend with {shape} LeanString items: {:?}", other));
+                    }
+                    let back: String = base.clone().into();
+                    let back2: String = (&base).into();
+                    if back != tgt || back2 != tgt {
+                        sink.fail(&["C01"], format!("From<LeanString> / From<&LeanString> for String on a {shape} value: {:?} / {:?}", back, back2));
+                    }
+                }
                 // panic positions: none, and before every `next()` up to one past the end
                 let strs_n = items.len();
                 for kind in 0..8usize {
